@@ -76,6 +76,12 @@ def rule_R2(ctx, prj):
             if any(_is_sum_of_values(le, me) for le, me in forms):
                 ctx.ok("R2", af.site(c), f"_analyze_file: entry loc = sum of the values of the same measurement list ({unparse(ms)})")
             else:
+                le = expand(af, loc)
+                wrong = isinstance(le, ast.Constant) or (isinstance(le, ast.Call) and attr_chain(le.func) == "len") or \
+                    (isinstance(le, ast.Call) and attr_chain(le.func) in ("sum", "max", "min") and not any(isinstance(x, ast.Attribute) and x.attr == "value" for x in ast.walk(le)))
+                if not wrong:
+                    # a form this reading does not know (a running total, a generator's return value ...): nothing recognised, nothing reported
+                    raise AnalysisError(f"{af.site(c)}: how the line total {term(af, loc)[:60]} relates to the measurements {unparse(ms)} is not understood")
                 ctx.viol("R2", "_analyze_file/loc", af.site(c), f"file line total is {term(af, loc)[:80]}, not the sum of the lengths of the measurements stored with it ({unparse(ms)})")
     if not n:
         raise AnalysisError("_analyze_file: SourceFileEntry(...) construction not found")
